@@ -102,7 +102,8 @@ def family():
     add("ns_dotted", _rec("a.b.Dot", [f("x", _fixed("Fx", 2)), f("y", "a.b.Fx"), f("z", "Fx")]), "ns", "ref")
     add("ns_switch", _rec("P", [f("c", _rec("C", [f("g", _rec("G", [f("v", "int")]))], namespace="n2")),
                                f("gref", "n2.G")], namespace="n1"), "ns", "ref")
-    add("ns_null", _rec("Q", [f("c", dict(_rec("Cn", [f("v", "int")]), namespace="")), f("r", "Cn")],
+    add("ns_null", _rec("Q", [f("c", dict(_rec("Cn", [f("v", "int"), f("e", _enum("En")), f("e2", "En")]),
+                                          namespace="")), f("w", "int")],
                         namespace="n3"), "ns", "ref")
     # recursion
     add("rec_list", _rec("LL", [f("v", "int"), f("next", ["null", "LL"])]), "recursive")
